@@ -460,6 +460,14 @@ def fleet_dense(tier):
               "edges": [edge("fleet", "F", "S", "M", cap=cap, delay=delay, transit=transit), buf("O", "M", "K", cap=2)], "until": 14,
               "family": "fleet_dense", "tag": "fleet_dense_m(c%d,d%s,t%s)" % (cap, delay, transit)}
         out.append(c2)
+    # the load that fills a small fleet arrives in the very instant its waiting period ends (feeder period a multiple of the
+    # fleet's delay, explicit out-edge policy so that the put is not deferred by a kernel hop)
+    for cap in (1, 2):
+        for pol in (0, "ROUND_ROBIN", "FIRST_AVAILABLE"):
+            for iat in (2, [2, 1]):
+                out.append({"nodes": [src("S", n=6, iat=iat, pol=pol), sink("K")],
+                            "edges": [edge("fleet", "F", "S", "K", cap=cap, delay=1, transit=0.25)], "until": 13, "family": "fleet_dense",
+                            "tag": "fleet_tick(c%d,%s,iat%s)" % (cap, _p(pol), "const2" if iat == 2 else "2|1")})
     # a slow consumer behind the fleet: delivered items wait in the fleet when the run ends
     for until in (10.5, 21.3):
         out.append({"nodes": [src("S", n=6, iat=[1, 2]), mach("M", pd=[6, 5]), sink("K")],
